@@ -17,6 +17,9 @@ def run_component(prop, level, component_run, rule, floor=None, assumptions=None
     def canon(key):
         """a combined key `prefix|a+b` (one case showing two independent findings) is known
         iff every component `prefix|a`, `prefix|b` is known; it is then booked on the first."""
+        import re
+
+        key = re.sub(r"(\.rs):\d+(:\d+)?", r"\1", key)
         if key in chk.known or "+" not in key:
             return key
         prefix, _, last = key.rpartition("|")
